@@ -324,6 +324,11 @@ let run_x86mov = function
      | _ -> "ERR need exactly one instruction")
   | _ -> "ERR bad x86mov line"
 
+(* x86frame|temps|pushes|sub_bytes -> ok | bad *)
+let run_x86frame = function
+  | [t; p; b] -> if frame_ok (zs t) (zs p) (zs b) then "ok" else "bad"
+  | _ -> "ERR bad x86frame line"
+
 (* liveregs|num_regs|bc-text -> ok | bad *)
 let run_liveregs = function
   | [n; bc] -> if live_regs_ok (zs n) (parse_bc (toks_of bc)) then "ok" else "bad"
@@ -727,7 +732,7 @@ let run_bcmem = function
      | _ -> "notdone")
   | _ -> "ERR bad bcmem line"
 
-let handlers : (Stdlib.String.t * (Stdlib.String.t list -> Stdlib.String.t)) list ref = ref [ ("cell", run_cell); ("bf", run_bf); ("inplace", run_inplace); ("ir", run_ir); ("bc", run_bc); ("x86form", run_x86form); ("x86call", run_x86call); ("x86br", run_x86br); ("x86mov", run_x86mov); ("x86limit", run_x86limit); ("liveregs", run_liveregs); ("bcreach", run_bcreach); ("parse", run_parse); ("bfbig", run_bfbig); ("bcmem", run_bcmem); ("formsnf", run_formsnf); ("shapes", run_shapes); ("cli", run_cli); ("bcwf", run_bcwf); ("bfx", run_bfx); ("expr", run_expr); ("svec", run_svec); ("tape", run_tape); ("rawproto", run_rawproto); ("bfcycle", run_bfcycle); ("irbig", run_irbig) ]
+let handlers : (Stdlib.String.t * (Stdlib.String.t list -> Stdlib.String.t)) list ref = ref [ ("cell", run_cell); ("bf", run_bf); ("inplace", run_inplace); ("ir", run_ir); ("bc", run_bc); ("x86form", run_x86form); ("x86call", run_x86call); ("x86br", run_x86br); ("x86mov", run_x86mov); ("x86limit", run_x86limit); ("liveregs", run_liveregs); ("x86frame", run_x86frame); ("bcreach", run_bcreach); ("parse", run_parse); ("bfbig", run_bfbig); ("bcmem", run_bcmem); ("formsnf", run_formsnf); ("shapes", run_shapes); ("cli", run_cli); ("bcwf", run_bcwf); ("bfx", run_bfx); ("expr", run_expr); ("svec", run_svec); ("tape", run_tape); ("rawproto", run_rawproto); ("bfcycle", run_bfcycle); ("irbig", run_irbig) ]
 
 let () =
   (try
